@@ -18,6 +18,17 @@ CLAIMED = {
         design='3 C18'),
 }
 
+CLAIMED['C17'] = dict(
+    text='Unbounded proof that the real source of booleq.Eq, And, Or, simplify_exprs[_And/_Or] and every override of '
+         'BooleanTerm.simplify meets contracts taken from the property: result is logically equivalent (under an arbitrary '
+         'valuation / every valuation drawn from the assignments table) and in flattened/absorbed normal form; in-place '
+         'mutation of a set borrowed from an existing term is a frame obligation.',
+    note='Trusted: engine/, z3, A-ADT (no further BooleanTerm subclasses; checked syntactically), A-EQ (set membership of terms is '
+         'structural equality: __eq__/__hash__ of _Eq/_And/_Or not under contract), precondition: every _Eq has a variable on one side. '
+         'Unverified surround: Solver.solve, extract_pivots, type_match.py.',
+    technique='contract-based deductive verification: Python ast -> VC generator with loop invariants -> z3 (cvc5 fallback)',
+    design='3 C17')
+
 NOT_APPLICABLE = {
     'C01': 'whole abstract interpreter vs CPython execution: no function-level contract expresses over-approximation of execution (DESIGN 4)',
     'C02': 'decided by matcher.py (2000 lines) on live VM values; the inhabitant oracle quantifies over programs, not one call (DESIGN 4)',
